@@ -18,10 +18,11 @@ EXPLANATION = (
     'retention site either the predicate (transitively) consults the dependencies of the entry - it iterates or '
     'recurses over recorded modules - or check_changes discards the whole long-lived cache, or there is no '
     'retention; R2 every server request runs the API inside `with self.project.check_changes()` and '
-    'check_changes clears the per-request cache before yielding; R3 the per-request cache only ever receives a '
-    'module that has just passed the validity predicate; R5 Project.get_module, check_changes and SourceModule.changed are '
+    'check_changes clears the per-request cache before yielding; R3 both lookups of a request (the second is answered from the '
+    'per-request table) serve the analysis of the current file content and the same module object (decided in the history model); R5 Project.get_module, check_changes and SourceModule.changed are '
     'abstractly interpreted on a modelled file system with scripted modification times over every history of bounded length '
-    '(edit, restore an older revision, create, request, request that fails after validating its module): the module served '
+    '(edit, touch, restore an older revision, create, request, request that fails after validating its module; supp\'s own extract_scope '
+    'is interpreted, module a star-imports b): the module served '
     'inside a fresh change-checking context must carry the current modification time of its file - for the module asked for '
     'directly; staleness reached through imports of unchanged modules is R1. Equality of complete answers after a concrete edit '
     'history is NOT decided.')
